@@ -304,6 +304,9 @@ func c08Values() []dec.D {
 	var vs []dec.D
 	for _, neg := range []bool{false, true} {
 		vs = append(vs, dec.Special(dec.NaN, neg), dec.Special(dec.SNaN, neg), dec.Special(dec.Inf, neg))
+		// infinities as the library itself produces them on overflow: the form is
+		// Infinite, the rounded coefficient and the exponent are left in place
+		vs = append(vs, dec.D{Form: dec.Inf, Neg: neg, C: big.NewInt(1234567891), E: 0}, dec.D{Form: dec.Inf, Neg: neg, C: big.NewInt(70000), E: 96})
 		for _, e := range []int64{-3, 0, 4} {
 			vs = append(vs, dec.Zero(neg, e))
 		}
@@ -407,7 +410,7 @@ func c08Case(t *mon.T, op string, c dec.Ctx, traps apd.Condition, x, y dec.D, pa
 }
 
 func runC08(r *mon.Run) {
-	r.Rule = "exhaustive grid: operand classes {NaN, sNaN, -NaN, -sNaN, +/-Inf, +/-0 with exponents -3/0/4, finite +/-{0.5, 1, 1.00, 7, 8, 2.5, " +
+	r.Rule = "exhaustive grid: operand classes {NaN, sNaN, -NaN, -sNaN, +/-Inf (canonical, and with the coefficient and exponent an overflow leaves behind), +/-0 with exponents -3/0/4, finite +/-{0.5, 1, 1.00, 7, 8, 2.5, " +
 		"1E+1, 3E+2, 7.0, 123.45}} for both operands x 22 Context operations x 8 rounding modes x 3 contexts x traps {none, default} x aliasing patterns {distinct, d==x, d==y, x==y, d==x==y}; each " +
 		"cell with at least one special or zero operand (or a cell the table defines) is compared with a table written from the GDA " +
 		"specification (form, sign, InvalidOperation/DivisionByZero/DivisionUndefined and the absence of rounding flags); cells the " +
